@@ -401,6 +401,21 @@ func (ex *exec) lockAcquire(fr *frame, p *value, write bool) {
 		return
 	}
 	if !write && !h.write {
+		if h.owner == ex.cur && ex.cfg.RecursiveRLock {
+			// sync.RWMutex: a read lock taken while the same goroutine already holds one deadlocks as soon as a
+			// writer asks for the lock in between (recursive read locking is prohibited)
+			site := ex.lockSite(fr)
+			ex.stats.assertQ++
+			r, model := ex.check(nil, true)
+			if r == Sat {
+				fnName := ""
+				if fr != nil {
+					fnName = fr.fn.String()
+				}
+				ex.recordFailure("deadlock", "deadlock:"+fnName+":recursive read lock of lock taken in "+h.fn, "read lock acquired while the same thread already holds it for reading (taken at "+h.site+"): deadlocks with a pending writer", site, nil, model)
+			}
+			panic(engineAbort{"done", "recursive read lock"})
+		}
 		h.count++
 		return
 	}
